@@ -21,7 +21,7 @@ BUDGET = {'quick': (4, 600), 'thorough': (16, 10000)}
 ASSUMPTIONS = ['!append in the very first document is not generated (statement: fails; fixture: plain list)',
                '!prev destinations hold nothing or a scalar (a mapping moved onto a mapping merges key-wise by the ordinary rules)']
 
-KEYS = ['a', 'b', 'c', 'l', '_p', 1, 7, 'v1.0', 'my-key']       # integer keys and keys that are not plain names too (the latter cannot be spelled in the path text of a !prev)
+KEYS = ['a', 'b', 'c', 'l', '_p', 1, 7, 'v1.0', 'my-key', 'extend', 'extend']       # integer keys and keys that are not plain names too (the latter cannot be spelled in the path text of a !prev)
 LEAF = st.one_of(st.integers(0, 9), st.sampled_from(['s', 't', 2.5, None, True, 0, False, '', 0.0]))
 
 
@@ -106,6 +106,9 @@ def _stage(draw, cur):
             inlist_ok = draw(st.integers(0, 5)) == 0       # targets addressed through a list index: open finding, kept as a small class
             cand = [p for p in paths if isinstance(_get(cur, p), list) and (inlist_ok or not through_list(cur, p))] if mode == 'list' else \
                 [p for p in paths if not isinstance(_get(cur, p), list)] if mode == 'nonlist' else []
+            named = [p for p in cand if isinstance(_get(cur, p), dict) and ('extend' in _get(cur, p) or 'append' in _get(cur, p))]
+            if named and draw(st.booleans()):
+                cand = named        # a mapping that has a key called like the list method the operator would use
             if cand:
                 p = cand[draw(st.integers(0, len(cand) - 1))]
             else:
